@@ -3,6 +3,9 @@
 import json, sys
 
 CHECKS = {
+ "C12": dict(engine="XS", design="§4 C12", technique="explicit-state BFS over operation histories on the real BackendMap/BackendList/retry policy with a harness-controlled clock; every selection compared with an eligibility reference",
+   text="All histories up to depth 7 (quick) / 9 (thorough) over add/re-add/remove, health and connect failure/success, clock advance past the back-off window, connection open/close, the 6 load-balancing policies and plain/keyed/connecting/sticky selections on 3 backends (2 weighted primaries, 1 backup): every selected backend must be eligible (primaries, else backups, else documented fail-open set), sticky wins iff eligible, HRW/Maglev keys are stable for an unchanged eligible set, connection counts equal the reference.",
+   note="Health/retry transitions are injected through the public fields the health checker and mux use; request-level counters and the mux's pairing of inc/dec are covered by SIM checks. Back-off windows are explored as inside/past, not per jitter value."),
  "C04": dict(engine="XS", design="§4 C04", technique="explicit-state BFS over add/remove histories on the real Router; every state compared with a precedence reference and with all other insertion orders of the same frontend set",
    text="All add/remove histories up to depth 5 (quick) / 6 (thorough) over 16 deliberately colliding frontends (pre/tree/post, exact/wildcard/regex hosts, PREFIX/EQUALS/REGEX paths, method, policy) are executed on the real Router and probed with 72 (host, path, method) requests; the result must follow the documented precedence, never come from a removed frontend, and be identical for every insertion order of the same set.",
    note="Bounded alphabet (16 frontends, 72 probes); multiple competing regexes (documented as undefined) are not exercised. Reference model is a 60-line precedence function in the harness."),
@@ -25,7 +28,6 @@ PLANNED = {
  "C09": "SIM engine (CommandHub) not built yet; planned, see DESIGN.md §4 C09",
  "C10": "ENUM/SIM check not built yet; planned, see DESIGN.md §4 C10",
  "C11": "ENUM check not built yet; planned, see DESIGN.md §4 C11",
- "C12": "XS check not built yet; planned, see DESIGN.md §4 C12",
  "C13": "SIM engine not built yet; planned, see DESIGN.md §4 C13",
  "C14": "SIM engine not built yet; planned, see DESIGN.md §4 C14",
  "C15": "ENUM/SIM check not built yet; planned, see DESIGN.md §4 C15",
